@@ -41,7 +41,9 @@ func checkC12(c *Ctx) {
 		for _, b := range backends {
 			c.c07Index(b)
 		}
-	}, func(o *coreObl) (string, bool) { return "R12.3", o.Rule == "R07.1" && strings.Contains(o.Construct, ".evict") })
+	}, func(o *coreObl) (string, bool) {
+		return "R12.3", o.Rule == "R07.1" && strings.Contains(o.Construct, ".evict")
+	})
 	// the count compared with CountSoftLimit is Len(): it has to be the number of stored entries (every shard, every entry once)
 	c.borrow("C07", func() {
 		for _, b := range backends {
@@ -92,7 +94,17 @@ func (c *Ctx) c12Cleanup() {
 				case "HeapInUseSoftLimit", "SysMemSoftLimit", "CountSoftLimit":
 					limVals[n] = append(limVals[n], ev.Value)
 				case "HeapInuse", "Sys", "HeapAlloc", "HeapSys", "Alloc", "TotalAlloc":
-					if rv := ev.Recv; rv != nil && !filled[rv] && !(rv.Kind == pw.KHavoc && rv.Src != nil && filled[rv.Src]) {
+					isFilled := false
+					for rv, i := ev.Recv, 0; rv != nil && i < 5; rv, i = rv.Src, i+1 {
+						if filled[rv] {
+							isFilled = true
+							break
+						}
+						if rv.Kind != pw.KHavoc && rv.Kind != pw.KAddr && rv.Kind != pw.KConv {
+							break
+						}
+					}
+					if ev.Recv != nil && !isFilled {
 						r.Bad("R12.1", "Trait.invokeCleanup", "stale-memstats", c.Pos(ev.Pos), "memory statistics are read without runtime.ReadMemStats having filled them", shortTrace(p))
 					} else {
 						measured[ev.Value] = n
@@ -414,20 +426,27 @@ func (c *Ctx) c12EvictLeast(b BK) {
 		return
 	}
 	info := c.Pkg.TypesInfo
+	// the operation's code: evictLeast and the unexported helpers it is split into
+	bodies := c.reachBodies(fd, 2)
 	// comparator
 	var sortCall *ast.CallExpr
-	ast.Inspect(fd.Body, func(n ast.Node) bool {
-		if call, ok := n.(*ast.CallExpr); ok {
-			if sel, ok := call.Fun.(*ast.SelectorExpr); ok {
-				if id, ok := sel.X.(*ast.Ident); ok {
-					if pn, ok := info.Uses[id].(*types.PkgName); ok && pn.Imported().Path() == "sort" && (sel.Sel.Name == "Slice" || sel.Sel.Name == "SliceStable") {
-						sortCall = call
+	for _, bd := range bodies {
+		if sortCall != nil {
+			break
+		}
+		ast.Inspect(bd.Body, func(n ast.Node) bool {
+			if call, ok := n.(*ast.CallExpr); ok {
+				if sel, ok := call.Fun.(*ast.SelectorExpr); ok {
+					if id, ok := sel.X.(*ast.Ident); ok {
+						if pn, ok := info.Uses[id].(*types.PkgName); ok && pn.Imported().Path() == "sort" && (sel.Sel.Name == "Slice" || sel.Sel.Name == "SliceStable") {
+							sortCall = call
+						}
 					}
 				}
 			}
-		}
-		return true
-	})
+			return true
+		})
+	}
 	okCmp := false
 	var sorted types.Object
 	if sortCall != nil && len(sortCall.Args) == 2 {
@@ -600,18 +619,20 @@ func (c *Ctx) c12EvictLeast(b BK) {
 	}
 	// loop step must be i++ (AST)
 	okStep := false
-	ast.Inspect(fd.Body, func(n ast.Node) bool {
-		fs, ok := n.(*ast.ForStmt)
-		if !ok || fs.Cond == nil || fs.Post == nil {
-			return true
-		}
-		if inc, ok := fs.Post.(*ast.IncDecStmt); ok && inc.Tok == token.INC {
-			if cond, ok := fs.Cond.(*ast.BinaryExpr); ok && cond.Op == token.LSS {
-				okStep = true
+	for _, bd := range bodies {
+		ast.Inspect(bd.Body, func(n ast.Node) bool {
+			fs, ok := n.(*ast.ForStmt)
+			if !ok || fs.Cond == nil || fs.Post == nil {
+				return true
 			}
-		}
-		return true
-	})
+			if inc, ok := fs.Post.(*ast.IncDecStmt); ok && inc.Tok == token.INC {
+				if cond, ok := fs.Cond.(*ast.BinaryExpr); ok && cond.Op == token.LSS {
+					okStep = true
+				}
+			}
+			return true
+		})
+	}
 	if !okStep {
 		r.Bad("R12.3", op, "loop-step", c.Pos(fd.Pos()), "the deletion loop is not `for i := 0; i < evictItems; i++`", nil)
 	}
@@ -678,7 +699,7 @@ func (c *Ctx) c12Wiring(b BK) {
 	}
 	// constructor selection
 	ctor := "New" + b.Wrapper
-	e, paths, _, err := c.runFunc(ctor, pw.Policy{})
+	e, paths, _, err := c.runFunc(ctor, pw.Policy{Inline: inlineUnexported, MaxDepth: 2})
 	if err != nil {
 		r.Unknown("R12.3", ctor, err.Error())
 		return
@@ -695,6 +716,10 @@ func (c *Ctx) c12Wiring(b BK) {
 			}
 			if ev.Kind == pw.EvAssign && ev.Obj != nil && ev.Value != nil && ev.Value.Kind == pw.KFuncRef && strings.HasPrefix(ev.Value.Obj.Name(), "evict") {
 				evict = ev.Value
+			}
+			// a helper that picks the evictor returns it
+			if ev.Kind == pw.EvExit && ev.Frame != nil && ev.Frame.Parent != nil && len(ev.Results) == 1 && ev.Results[0] != nil && ev.Results[0].Kind == pw.KFuncRef && ev.Results[0].Obj != nil && strings.HasPrefix(ev.Results[0].Obj.Name(), "evict") {
+				evict = ev.Results[0]
 			}
 		}
 		if strat == nil || evict == nil {
@@ -718,8 +743,12 @@ func (c *Ctx) c12Wiring(b BK) {
 	fd, _ := c.funcDecl(ctor)
 	want := map[string]string{"DeleteExpired": "deleteExpired", "Len": "Len", "Evict": "evict"}
 	got := map[string]string{}
+	var ctorBodies []*ast.FuncDecl
 	if fd != nil {
-		ast.Inspect(fd.Body, func(x ast.Node) bool {
+		ctorBodies = c.reachBodies(fd, 2)
+	}
+	for _, bd := range ctorBodies {
+		ast.Inspect(bd.Body, func(x ast.Node) bool {
 			as, ok := x.(*ast.AssignStmt)
 			if !ok || len(as.Lhs) != 1 || len(as.Rhs) != 1 {
 				return true
